@@ -590,6 +590,81 @@ fn panic_history_cases(r: &mut Report, seed: u64) {
     }
 }
 
+/// Wrapped implementations that take their randomness in *bytes* (`fill_bytes` / `Rng::fill` on buffers of 0..=17 bytes),
+/// as 32-bit and as 64-bit words, interleaved: behind every erased trait the same bytes / words arrive and the caller's
+/// generator ends in the same state (model-free: erased vs. concrete from clones of one generator).
+fn byte_draw_cases(r: &mut Report, seed: u64) {
+    #[derive(Clone)]
+    struct ByteUser { n: usize, pattern: u8 }
+    impl ByteUser {
+        fn draw<R: Rng + ?Sized>(&self, rng: &mut R) -> Vec<u8> {
+            let mut out = vec![];
+            for round in 0..3u8 {
+                match (self.pattern + round) % 4 {
+                    0 => { let mut b = vec![0u8; self.n]; rng.fill_bytes(&mut b); out.extend(b); }
+                    1 => out.extend(rng.next_u32().to_le_bytes()),
+                    2 => out.extend(rng.next_u64().to_le_bytes()),
+                    _ => { let mut b = vec![0u8; (self.n + 3) % 7]; rng.fill(&mut b[..]); out.extend(b); }
+                }
+            }
+            out
+        }
+    }
+    impl Mutator<Vec<u8>> for ByteUser {
+        type Error = ProbeErr;
+        fn mutate<R: Rng + ?Sized>(&self, mut g: Vec<u8>, rng: &mut R) -> Result<Vec<u8>, ProbeErr> { g.extend(self.draw(rng)); Ok(g) }
+    }
+    impl Operator<Vec<u8>> for ByteUser {
+        type Output = Vec<u8>;
+        type Error = ProbeErr;
+        fn apply<R: Rng + ?Sized>(&self, g: Vec<u8>, rng: &mut R) -> Result<Vec<u8>, ProbeErr> { self.mutate(g, rng) }
+    }
+    impl Composable for ByteUser {}
+    impl Recombinator<[Vec<u8>; 2]> for ByteUser {
+        type Output = Vec<u8>;
+        type Error = ProbeErr;
+        fn recombine<R: Rng + ?Sized>(&self, g: [Vec<u8>; 2], rng: &mut R) -> Result<Vec<u8>, ProbeErr> { let [mut a, b] = g; a.extend(b); a.extend(self.draw(rng)); Ok(a) }
+    }
+    impl Selector<Vec<Vec<u8>>> for ByteUser {
+        type Error = ProbeErr;
+        fn select<'pop, R: Rng + ?Sized>(&self, pop: &'pop Vec<Vec<u8>>, rng: &mut R) -> Result<&'pop Vec<u8>, ProbeErr> {
+            let d = self.draw(rng);
+            let k = d.iter().fold(0usize, |a, b| a.wrapping_mul(31).wrapping_add(*b as usize));
+            pop.get(k % pop.len().max(1)).ok_or(ProbeErr { id: 3, code: 1 })
+        }
+    }
+    let mut bad: Vec<String> = vec![];
+    let pop: Vec<Vec<u8>> = (0..5u8).map(|j| vec![j; 2]).collect();
+    let mut n_cases = 0u64;
+    for n in 0..=17usize {
+        for pattern in 0..4u8 {
+            let u = ByteUser { n, pattern };
+            let base = SplitMix::derive(seed ^ 0xB17E5, (n * 4 + pattern as usize) as u64);
+            let fin = |v: Result<Vec<u8>, String>, mut rng: SplitMix| (v, rng.next_u64());
+            let conc_m = { let mut rng = base.clone(); let v = u.mutate(vec![1, 2], &mut rng).map_err(|e| e.to_string()); fin(v, rng) };
+            let conc_r = { let mut rng = base.clone(); let v = u.recombine([vec![1], vec![2]], &mut rng).map_err(|e| e.to_string()); fin(v, rng) };
+            let conc_s = { let mut rng = base.clone(); let v = u.select(&pop, &mut rng).cloned().map_err(|e| e.to_string()); fin(v, rng) };
+            let checks: Vec<(&str, (Result<Vec<u8>, String>, u64), &(Result<Vec<u8>, String>, u64))> = vec![
+                ("&dyn DynMutator", { let p: &dyn DynMutator<Vec<u8>, ProbeErr> = &u; let mut rng = base.clone(); let v = p.mutate(vec![1, 2], &mut rng).map_err(|e| e.to_string()); fin(v, rng) }, &conc_m),
+                ("Box<dyn DynMutator + Send>", { let p: Box<dyn DynMutator<Vec<u8>, ProbeErr> + Send> = Box::new(u.clone()); let mut rng = base.clone(); let v = p.mutate(vec![1, 2], &mut rng).map_err(|e| e.to_string()); fin(v, rng) }, &conc_m),
+                ("Arc<dyn DynOperator>", { let p: Arc<dyn DynOperator<Vec<u8>, ProbeErr, Output = Vec<u8>>> = Arc::new(u.clone()); let mut rng = base.clone(); let v = p.apply(vec![1, 2], &mut rng).map_err(|e| e.to_string()); fin(v, rng) }, &conc_m),
+                ("Rc<dyn DynRecombinator>", { let p: Rc<dyn DynRecombinator<[Vec<u8>; 2], ProbeErr, Output = Vec<u8>>> = Rc::new(u.clone()); let mut rng = base.clone(); let v = p.recombine([vec![1], vec![2]], &mut rng).map_err(|e| e.to_string()); fin(v, rng) }, &conc_r),
+                ("&dyn DynSelector", { let p: &dyn DynSelector<Vec<Vec<u8>>, ProbeErr> = &u; let mut rng = base.clone(); let v = p.select(&pop, &mut rng).cloned().map_err(|e| e.to_string()); fin(v, rng) }, &conc_s),
+                ("Box<dyn DynSelector + Send + Sync>", { let p: Box<dyn DynSelector<Vec<Vec<u8>>, ProbeErr> + Send + Sync> = Box::new(u.clone()); let mut rng = base.clone(); let v = p.select(&pop, &mut rng).cloned().map_err(|e| e.to_string()); fin(v, rng) }, &conc_s),
+            ];
+            for (name, got, want) in checks {
+                n_cases += 1;
+                if &got != want { bad.push(format!("{name} around an implementation that fills {n}-byte buffers (draw pattern {pattern}): erased {:?} (next word {:#x}), wrapped {:?} (next word {:#x})", got.0, got.1, want.0, want.1)); }
+            }
+        }
+    }
+    r.case("erased forms around byte-drawing implementations", true);
+    r.hit_n("byte-drawing implementations behind erased forms (oracle only)", n_cases);
+    for what in bad.into_iter().take(6) {
+        r.violate(json!({"case": "wrapped implementations that draw bytes (fill_bytes / fill on 0..=17-byte buffers), u32 and u64 words behind erased forms", "what": what}));
+    }
+}
+
 pub fn run(cfg: &Cfg) -> Report {
     let selftest: u8 = std::env::var("UEC_SELFTEST").ok().and_then(|s| s.parse().ok()).unwrap_or(0);
     let seed = cfg.seed;
@@ -611,6 +686,7 @@ pub fn run(cfg: &Cfg) -> Report {
     });
     zero_sized_cases(&mut rep, seed);
     panic_history_cases(&mut rep, seed);
+    byte_draw_cases(&mut rep, seed);
     // ---- inventory: proc-macro source vs Lean model vs what was compiled here
     let mut d = crate::driver::Driver::spawn(&cfg.driver);
     let model: Vec<String> = d.ask("ops flavours").split(',').map(|s| s.to_string()).collect();
